@@ -281,6 +281,40 @@ func runC20(p *Prog, r *Report, tier string) {
 				"on every edge into the slice bound the count is len(flowRecords) or proven 0 <= count <= len(flowRecords) by the branch conditions", "the count used in the slice bound is not clamped to [0, len(flowRecords)]: "+why+" (a large or negative count panics or returns the wrong window)", true)
 		}
 	}
+	// the three store functions keep no state of their own besides the store: an answer computed from anything remembered
+	// across requests (a cached body, a remembered length) can be stale although the store moved on
+	for _, fn := range []*ssa.Function{add, q, rs} {
+		if fn == nil {
+			continue
+		}
+		nG := 0
+		eachInstr(fn, func(in ssa.Instruction) {
+			var gl *ssa.Global
+			switch x := in.(type) {
+			case *ssa.Store:
+				gl, _ = x.Addr.(*ssa.Global)
+			case *ssa.UnOp:
+				if x.Op == token.MUL {
+					gl, _ = x.X.(*ssa.Global)
+				}
+			}
+			if gl == nil || gl.Pkg == nil || gl.Pkg.Pkg.Path() != modPath+"/cmd/collector" {
+				return
+			}
+			nG++
+			switch gl.Name() {
+			case "flowRecords", "mutex", "flowTextSeparator":
+				return
+			}
+			_, isStore := in.(*ssa.Store)
+			if !isStore && !globalWrittenOutsideInit(p, gl) {
+				return // a constant-like configuration variable
+			}
+			r.Violation("R-OWNER.stateless", fmt.Sprintf("%s: uses package variable %s", fnKey(fn), gl.Name()), p.instrPos(in),
+				"a store function reads or writes mutable package state other than the store itself: what it answers or keeps then depends on earlier requests, not only on the messages received (e.g. a cached response that is not invalidated by every arrival and reset)")
+		})
+		r.Check(nG > 0, "R-OWNER.stateless", fnKey(fn)+": package variables used", p.pos(fn.Pos()), "only the store, its mutex and constants", "no package variable used at all: the store anchor is lost", true)
+	}
 	// both formats answer with the window: the JSON body is built from it and the text loop ranges over it
 	if qslice != nil {
 		nJ, okJ := 0, true
@@ -609,4 +643,20 @@ func derivesFromStore(v ssa.Value, d int) bool {
 		}
 	}
 	return false
+}
+
+// globalWrittenOutsideInit: is the package variable assigned anywhere but in the package initialiser?
+func globalWrittenOutsideInit(p *Prog, gl *ssa.Global) bool {
+	w := false
+	for _, f := range p.RepoFns {
+		if f.Name() == "init" || strings.HasPrefix(f.Name(), "init#") {
+			continue
+		}
+		eachInstr(f, func(in ssa.Instruction) {
+			if st, ok := in.(*ssa.Store); ok && st.Addr == ssa.Value(gl) {
+				w = true
+			}
+		})
+	}
+	return w
 }
